@@ -82,31 +82,31 @@ mod mac_basic__srcto;
 mod mac_capture__par;
 mod mac_nested__exppar;
 mod mac_disj__pari;
-mod rnd_core_02__pari;
-mod rnd_core_05__par;
-mod rnd_core_08__ser;
-mod rnd_core_10__pari;
-mod rnd_core_13__par;
-mod rnd_core_16__ser;
-mod rnd_core_18__pari;
-mod rnd_core_21__par;
-mod rnd_core_24__ser;
-mod rnd_core_26__pari;
-mod rnd_core_29__par;
-mod rnd_agg_02__ser;
-mod rnd_agg_04__pari;
-mod rnd_agg_07__par;
-mod rnd_agg_10__ser;
-mod rnd_agg_12__pari;
-mod rnd_agg_15__par;
-mod rnd_prec_02__par;
-mod rnd_prec_03__topar;
-mod rnd_prec_05__pari;
-mod rnd_prec_07__ser;
-mod rnd_prec_08__to;
-mod rnd_prea_03__ser;
-mod rnd_prea_05__pari;
-mod rnd_prea_08__par;
+mod stress_rel__pari;
+mod rnd_core_03__par;
+mod rnd_core_06__ser;
+mod rnd_core_08__pari;
+mod rnd_core_11__par;
+mod rnd_core_14__ser;
+mod rnd_core_16__pari;
+mod rnd_core_19__par;
+mod rnd_core_22__ser;
+mod rnd_core_24__pari;
+mod rnd_core_27__par;
+mod rnd_core_30__ser;
+mod rnd_agg_02__pari;
+mod rnd_agg_05__par;
+mod rnd_agg_08__ser;
+mod rnd_agg_10__pari;
+mod rnd_agg_13__par;
+mod rnd_prec_01__ser;
+mod rnd_prec_02__to;
+mod rnd_prec_04__par;
+mod rnd_prec_05__topar;
+mod rnd_prec_07__pari;
+mod rnd_prea_01__ser;
+mod rnd_prea_03__pari;
+mod rnd_prea_06__par;
 
 fn lookup(name: &str) -> fn() -> Box<dyn Driven> {
    match name {
@@ -184,31 +184,31 @@ fn lookup(name: &str) -> fn() -> Box<dyn Driven> {
       "mac_capture__par" => mac_capture__par::make,
       "mac_nested__exppar" => mac_nested__exppar::make,
       "mac_disj__pari" => mac_disj__pari::make,
-      "rnd_core_02__pari" => rnd_core_02__pari::make,
-      "rnd_core_05__par" => rnd_core_05__par::make,
-      "rnd_core_08__ser" => rnd_core_08__ser::make,
-      "rnd_core_10__pari" => rnd_core_10__pari::make,
-      "rnd_core_13__par" => rnd_core_13__par::make,
-      "rnd_core_16__ser" => rnd_core_16__ser::make,
-      "rnd_core_18__pari" => rnd_core_18__pari::make,
-      "rnd_core_21__par" => rnd_core_21__par::make,
-      "rnd_core_24__ser" => rnd_core_24__ser::make,
-      "rnd_core_26__pari" => rnd_core_26__pari::make,
-      "rnd_core_29__par" => rnd_core_29__par::make,
-      "rnd_agg_02__ser" => rnd_agg_02__ser::make,
-      "rnd_agg_04__pari" => rnd_agg_04__pari::make,
-      "rnd_agg_07__par" => rnd_agg_07__par::make,
-      "rnd_agg_10__ser" => rnd_agg_10__ser::make,
-      "rnd_agg_12__pari" => rnd_agg_12__pari::make,
-      "rnd_agg_15__par" => rnd_agg_15__par::make,
-      "rnd_prec_02__par" => rnd_prec_02__par::make,
-      "rnd_prec_03__topar" => rnd_prec_03__topar::make,
-      "rnd_prec_05__pari" => rnd_prec_05__pari::make,
-      "rnd_prec_07__ser" => rnd_prec_07__ser::make,
-      "rnd_prec_08__to" => rnd_prec_08__to::make,
-      "rnd_prea_03__ser" => rnd_prea_03__ser::make,
-      "rnd_prea_05__pari" => rnd_prea_05__pari::make,
-      "rnd_prea_08__par" => rnd_prea_08__par::make,
+      "stress_rel__pari" => stress_rel__pari::make,
+      "rnd_core_03__par" => rnd_core_03__par::make,
+      "rnd_core_06__ser" => rnd_core_06__ser::make,
+      "rnd_core_08__pari" => rnd_core_08__pari::make,
+      "rnd_core_11__par" => rnd_core_11__par::make,
+      "rnd_core_14__ser" => rnd_core_14__ser::make,
+      "rnd_core_16__pari" => rnd_core_16__pari::make,
+      "rnd_core_19__par" => rnd_core_19__par::make,
+      "rnd_core_22__ser" => rnd_core_22__ser::make,
+      "rnd_core_24__pari" => rnd_core_24__pari::make,
+      "rnd_core_27__par" => rnd_core_27__par::make,
+      "rnd_core_30__ser" => rnd_core_30__ser::make,
+      "rnd_agg_02__pari" => rnd_agg_02__pari::make,
+      "rnd_agg_05__par" => rnd_agg_05__par::make,
+      "rnd_agg_08__ser" => rnd_agg_08__ser::make,
+      "rnd_agg_10__pari" => rnd_agg_10__pari::make,
+      "rnd_agg_13__par" => rnd_agg_13__par::make,
+      "rnd_prec_01__ser" => rnd_prec_01__ser::make,
+      "rnd_prec_02__to" => rnd_prec_02__to::make,
+      "rnd_prec_04__par" => rnd_prec_04__par::make,
+      "rnd_prec_05__topar" => rnd_prec_05__topar::make,
+      "rnd_prec_07__pari" => rnd_prec_07__pari::make,
+      "rnd_prea_01__ser" => rnd_prea_01__ser::make,
+      "rnd_prea_03__pari" => rnd_prea_03__pari::make,
+      "rnd_prea_06__par" => rnd_prea_06__par::make,
       _ => panic!("no such program variant in this shard: {}", name),
    }
 }
